@@ -542,7 +542,7 @@ def ommXml (m : Omm) : R Elem := do
         [Elem.leaf "GM" [("units", "km**3/s**2")] (.s "398600.8")]),
       Elem.node "tleParameters" ([leafS "EPHEMERIS_TYPE" "0", leafS "CLASSIFICATION_TYPE" "U"] ++
         (ommTleKeys.zip m.tle).map (fun ((k, _), v) => Elem.leaf k [] v))] ++
-      (match m.cov with | some c => [covXml none c] | none => []) ++ udXml m.ud)]]]
+      m.cov.toList.map (covXml none) ++ udXml m.ud)]]]
 
 def loadOmmCore (md me tp : Dict) : R (String × String × String × String × Txt × List Txt × List Txt) := do
   let (name, id, scale, frame, epoch) ← keyErrToCcsds (do
